@@ -250,7 +250,8 @@ class UnitStore(object):
         assert isinstance(unit2, self.Unit)
         base1 = self._registry.get_base_units(unit1)
         base2 = self._registry.get_base_units(unit2)
-        is_equal = base1[1] == base2[1] and math.isclose(base1[0], base2[0])
+        # compare dimensions, not base units: radian is a base unit without a dimension, and converts to dimensionless
+        is_equal = unit1.dimensionality == unit2.dimensionality and math.isclose(base1[0], base2[0])
         logger.debug('is_equal(%s, %s) ⟶ %s', unit1, unit2, is_equal)
         return is_equal
 
